@@ -193,6 +193,9 @@ func main() {
 	fnAxioms := ""
 	for _, lm := range eng.lemmas {
 		r := lemRes[lm]
+		if *locks {
+			continue // lock and wait-level obligations do not depend on the spec theory's lemmas
+		}
 		if !*gen {
 			dischargeAll(r.Obligations, basePrelude()+axiomMarker+axioms, dir, *timeout, *seed, *workers, *both)
 		}
@@ -223,7 +226,7 @@ func main() {
 	var tainted []*FuncResult
 	for _, f := range o.Functions {
 		for _, l := range f.UsedLemmas {
-			if !proved[l] && !*gen {
+			if !proved[l] && !*gen && !*locks {
 				tainted = append(tainted, f)
 				f.Errors = append(f.Errors, "applies lemma "+l+" which was not proved in this run")
 				f.OutOfSubset = true
